@@ -13,8 +13,10 @@ class C15(C14):
   rule = ("Hypothesis-generated histories on a real HsmWithQueues: generated chart whose handlers "
           "post, defer a fresh event, defer the event being handled, and recall (budgeted) x up to 3 posts/defers made before start_at x up to "
           "25 operations from post_fifo, post_lifo, defer, recall, next_rtc, complete_circuit; unique "
-          "ids; one history in four starts from a queue holding exactly its capacity (500 events), "
-          "where a recall displaces the oldest queued event. Oracle: model deque + defer list: a deferred id is never dispatched before its "
+          "ids; some histories start from a queue holding exactly its capacity (500 events), "
+          "where a recall displaces the oldest queued event, or defer 498-500 events at once; posts, defers and recalls may be "
+          "made before start_at and with live output on; a scripted family puts deferred events of a started ActiveObject "
+          "next to timed posts of the same signal that fire and are cancelled. Oracle: model deque + defer list: a deferred id is never dispatched before its "
           "recall; each recall (outside or inside a handler) returns the oldest deferred event (the "
           "same object for events posted from outside) and places it at the back of the queue "
           "(checked through the later dispatch order); a recall with nothing deferred returns None "
@@ -48,6 +50,63 @@ class C15(C14):
       return case
     return st.one_of(base, base, base, base, base, base.map(at_capacity), base.map(deep_defer))
 
+  def extra(self, tier, seed, shard, nshards, stats):
+    """Deferred events of an ACTIVE OBJECT next to its timed posts: arming, cancelling (by id and by
+    name) and the firing of timed sources with the same signal names never touch what is deferred -
+    recall still hands back the very events that were deferred, oldest first."""
+    idx = 0
+    for cancel in ("events", "event", "none"):
+      for nsrc in (1, 2):
+        for order in (["VB", "VC", "VB"], ["VC", "VB"], ["VB"]):
+          idx += 1
+          if idx % nshards != shard:
+            continue
+          case = {"ao_defer": order, "cancel": cancel, "sources": nsrc, "schedule": []}
+          try:
+            self.check_ao_defer(case, stats)
+          except PropertyViolation as v:
+            yield case, v
+            return
+
+  def check_ao_defer(self, case, stats):
+    from .c10 import TimedWorld
+    from .. import detsched
+    order, cancel, nsrc = case["ao_defer"], case["cancel"], case["sources"]
+    w = TimedWorld(case)
+    got, deferred = [], []
+
+    def body(s):
+      chart, fn = w.make_chart(s)
+      chart.start_at(fn)
+      s.quiesce()
+      for k, sg in enumerate(order):
+        e = w.Event(signal=w.signals[sg], payload=700 + k)
+        deferred.append(e)
+        chart.defer(e)
+      ids = [chart.post_fifo(w.Event(signal=w.signals["VB"], payload=k), period=0.5, times=0, deferred=True)
+             for k in range(nsrc)]
+      s.sleep_until(s.now + 1.2)
+      if cancel == "events":
+        chart.cancel_events(w.Event(signal=w.signals["VB"]))
+      elif cancel == "event":
+        for i in ids:
+          chart.cancel_event(i)
+      for _ in range(len(order) + 1):
+        got.append(chart.recall())
+      chart.cancel_events(w.Event(signal=w.signals["VB"]))
+      s.quiesce()
+    try:
+      w.run(body)
+    except (detsched.Deadlock, detsched.StepLimit) as e:
+      raise PropertyViolation("active object with deferred events and timed posts: %s" % e, "C15:liveness")
+    stats.case(case, True, ["active_object_with_timed_posts"])
+    if len(got) != len(deferred) + 1 or any(a is not b for a, b in zip(got, deferred)) or got[-1] is not None:
+      raise PropertyViolation(
+        "an active object deferred %s, armed %d timed post(s) of VB, cancelled by %s: recall returned %s, "
+        "expected the deferred events themselves, oldest first, then None" % (
+          order, nsrc, cancel, [(g.signal_name, g.payload) if g is not None else None for g in got]),
+        "C15:recall")
+
   def compare_common(self, o, exp_dispatched, seen, where):
     # an event deferred by the handler that was processing it is legitimately
     # dispatched again after its recall, so only the order is compared here
@@ -78,6 +137,8 @@ class C15(C14):
     self._maxdef = max(getattr(self, "_maxdef", 0), d)
 
   def check(self, case, stats):
+    if "ao_defer" in case:
+      return self.check_ao_defer(case, stats)
     self._maxdef = 0
     return super().check(case, stats)
 
